@@ -38,6 +38,8 @@ func runC12(w *World, r *Report) {
 	c12Order(w, r, ef, exec)
 	c12Policy(w, r, ef, exec)
 	c12Gate(w, r, ef, exec)
+	c12HookSource(w, r, exec)
+	c12WeightParse(w, r)
 	r.Rule("C12/ERR-COLLECT", "where a hook failure is collected into a list of errors instead of being returned at once, the operation's success return is reached only where that list is empty", 1)
 	errCollect(w, r, "C12/ERR-COLLECT", []string{"pkg/action"}, func(fn *ssa.Function) bool {
 		for _, c := range callInstrs(fn) {
@@ -910,4 +912,72 @@ func errAccumulated(g *Graph, p Site) bool {
 		}
 	}
 	return false
+}
+
+// c12HookSource: the hooks run before and after an operation's resource changes come from one release
+// object (the revision being created or removed). Sibling agreement inside each operation function.
+func c12HookSource(w *World, r *Report, exec *ssa.Function) {
+	r.Rule("C12/HOOK-SOURCE", "within one operation the pre- and post- hook executor calls receive the same release object", 3)
+	n := 0
+	for _, fn := range w.FuncsIn("pkg/action") {
+		if fn.Parent() != nil || isNewFunc(fn) {
+			continue
+		}
+		rels := map[ssa.Value]string{}
+		cnt := 0
+		for _, f := range withAnon(fn) {
+			for _, c := range callInstrs(f) {
+				if cf, _ := calleeOf(c.Common()); cf == nil || origin(cf) != exec {
+					continue
+				}
+				for _, a := range c.Common().Args {
+					if isReleasePtr(a.Type()) {
+						cnt++
+						rels[stripConv(a)] = w.InstrPos(c)
+					}
+				}
+			}
+		}
+		if cnt < 2 {
+			continue
+		}
+		n++
+		r.Fn(FuncName(fn))
+		pos := ""
+		for _, p := range rels {
+			if pos == "" || p > pos {
+				pos = p
+			}
+		}
+		r.Check(len(rels) == 1, "C12/HOOK-SOURCE", FuncName(fn), w.Pos(fn.Pos()), fmt.Sprintf("%d hook executor calls, one release object", cnt), fmt.Sprintf("the hook executor calls of this operation receive %d different release objects (one at %s): hooks of another revision would run, and this revision's hooks would not gate its changes", len(rels), pos))
+	}
+	if n == 0 {
+		r.Unk("C12/HOOK-SOURCE", "no-site", "-", "no operation with a pre- and a post- hook call found")
+	}
+}
+
+// c12WeightParse: hook weights are decimal integers ("010" is ten, "08" is eight).
+func c12WeightParse(w *World, r *Report) {
+	r.Rule("C12/WEIGHT-PARSE", "the manifest sorter parses integer annotations (hook weights) in base 10", 1)
+	n := 0
+	for _, fn := range w.FuncsIn("pkg/release/util") {
+		for _, c := range callInstrs(fn) {
+			f, _ := calleeOf(c.Common())
+			if f == nil || fnPkgPath(f) != "strconv" {
+				continue
+			}
+			switch f.Name() {
+			case "Atoi":
+				n++
+				r.OK("C12/WEIGHT-PARSE", siteKey(Site{fn, c, posOf(c)}), w.InstrPos(c), "strconv.Atoi: decimal")
+			case "ParseInt", "ParseUint":
+				n++
+				base, ok := constInt(c.Common().Args[1])
+				r.Check(ok && base == 10, "C12/WEIGHT-PARSE", siteKey(Site{fn, c, posOf(c)}), w.InstrPos(c), "parsed in base 10", "an integer annotation is parsed with a base other than 10 (base 0 reads a leading zero as octal: weights \"08\" and \"09\" become invalid, \"010\" becomes 8): hooks run in another order than their weights say")
+			}
+		}
+	}
+	if n == 0 {
+		r.Unk("C12/WEIGHT-PARSE", "no-site", "-", "no integer parse found in pkg/release/util")
+	}
 }
